@@ -422,15 +422,30 @@ class Run:
             self.n('grid_queries_negative_phase')
         if q == 0:
             self.n('grid_queries_quant_zero')
-        # no meter change yet: the meter reference is exactly 0.0 on both
-        # sides and the whole-number case is exact
-        direct = ref is not None and mdl.base_bar_beat == 0.0
-        why = M.grid_check(r, q, p, eff, mdl.base_bar_beat,
-                           0.0 if direct else self.tolb(eff), direct=direct)
+        # The whole-number case is exact only in terms of what the REAL clock
+        # computed with: the reference beat actually passed and the clock's own
+        # base_bar_beat (a beat that came out of a seconds <-> beats
+        # conversion, e.g. -4.4e-16 where the model has 0.0).  Otherwise the
+        # tolerance branch against the model's meter reference decides.
+        ok, real_bbb = self.call('base_bar_beat', lambda: clk.base_bar_beat)
+        if not ok:
+            return
+        exact = ref is not None and all(
+            M._whole(v) for v in (q, p, ref, real_bbb))
+        if exact:
+            self.n('grid_queries_exact_whole_number')
+            why = M.grid_check(r, q, p, ref, real_bbb, 0.0, direct=True)
+        else:
+            why = M.grid_check(r, q, p, eff, mdl.base_bar_beat,
+                               self.tolb(eff))
         if why:
             self.bad(f'C12/grid/{why[0]}', quant=q, phase=p, ref=eff,
                      ref_given=ref is not None, result=r,
-                     base_bar_beat=mdl.base_bar_beat, text=why[1])
+                     model_base_bar_beat=mdl.base_bar_beat,
+                     real_base_bar_beat=real_bbb, exact_branch=exact,
+                     real_values_repr={'ref': repr(eff), 'result': repr(r),
+                                       'base_bar_beat': repr(real_bbb)},
+                     text=why[1])
 
     def op_ttnb(self, q):
         clk, mdl = self.clk, self.model
